@@ -118,6 +118,11 @@ def fixed_pool():
         ('Generic("==","a")', lambda: GenericSpecifier("==", "a")),
         ('Generic("==","a") #2', lambda: GenericSpecifier("==", "a")),
         ('Generic("in","a")', lambda: GenericSpecifier("in", "a")),
+        # the empty string as literal: every value contains it, no value is in it
+        ('Generic("contains","")', lambda: GenericSpecifier("contains", "")),
+        ('Generic("not contains","")', lambda: GenericSpecifier("not contains", "")),
+        ('Generic("in","")', lambda: GenericSpecifier("in", "")),
+        ('Generic("==","")', lambda: GenericSpecifier("==", "")),
         ('Generic("!=","a")', lambda: GenericSpecifier("!=", "a")),
         ('~Generic("!=","a")', lambda: ~GenericSpecifier("!=", "a")),
         ('Generic("==","a")&Generic("==","b")', lambda: GenericSpecifier("==", "a") & GenericSpecifier("==", "b")),
